@@ -561,6 +561,10 @@ func sortedTasks(tasks map[string]*Task) []*Task {
 
 func sortByCreatedAt(tasks []*Task) {
 	sort.Slice(tasks, func(i, j int) bool {
+		if tasks[i].CreatedAt.Equal(tasks[j].CreatedAt) {
+			// Deterministic tie-break: the input comes from map iteration.
+			return tasks[i].ID < tasks[j].ID
+		}
 		return tasks[i].CreatedAt.Before(tasks[j].CreatedAt)
 	})
 }
